@@ -125,6 +125,8 @@ PACKED_TYPES = [
 WIRE_VARINT = 0
 WIRE_FIXED_64 = 1
 WIRE_LEN_DELIM = 2
+WIRE_START_GROUP = 3
+WIRE_END_GROUP = 4
 WIRE_FIXED_32 = 5
 
 # Mappings of which Proto 3 types correspond to which wire types.
@@ -566,6 +568,10 @@ def _dump_float(value: float) -> Union[float, str]:
     return value
 
 
+class _TruncatedVarint(EOFError):
+    """The stream ended in the middle of a varint rather than before one."""
+
+
 def load_varint(stream: "SupportsRead[bytes]") -> Tuple[int, bytes]:
     """
     Load a single varint value from a stream. Returns the value and the raw bytes read.
@@ -577,7 +583,9 @@ def load_varint(stream: "SupportsRead[bytes]") -> Tuple[int, bytes]:
             raise ValueError("Too many bytes when decoding varint.")
         b = stream.read(1)
         if not b:
-            raise EOFError("Stream ended unexpectedly while attempting to load varint.")
+            raise (_TruncatedVarint if raw else EOFError)(
+                "Stream ended unexpectedly while attempting to load varint."
+            )
         raw += b
         b_int = int.from_bytes(b, byteorder="little")
         result |= (b_int & 0x7F) << shift
@@ -604,32 +612,62 @@ class ParsedField:
     raw: bytes
 
 
+def _read_exactly(stream: "SupportsRead[bytes]", size: int) -> bytes:
+    data = stream.read(size)
+    if len(data) != size:
+        raise EOFError("Stream ended unexpectedly while attempting to load a field.")
+    return data
+
+
+def _load_field(
+    stream: "SupportsRead[bytes]", num_wire: int, raw: bytes
+) -> ParsedField:
+    """Loads the payload of the field whose tag (``num_wire``) was just read."""
+    number = num_wire >> 3
+    wire_type = num_wire & 0x7
+    if number == 0:
+        raise ValueError("Invalid field number 0.")
+
+    decoded: Any = None
+    if wire_type == WIRE_VARINT:
+        decoded, r = load_varint(stream)
+        raw += r
+    elif wire_type == WIRE_FIXED_64:
+        decoded = _read_exactly(stream, 8)
+        raw += decoded
+    elif wire_type == WIRE_LEN_DELIM:
+        length, r = load_varint(stream)
+        decoded = _read_exactly(stream, length)
+        raw += r
+        raw += decoded
+    elif wire_type == WIRE_FIXED_32:
+        decoded = _read_exactly(stream, 4)
+        raw += decoded
+    elif wire_type == WIRE_START_GROUP:
+        # (proto2) groups are skipped as a whole, up to the matching end tag.
+        while True:
+            inner_num_wire, r = load_varint(stream)
+            if inner_num_wire & 0x7 == WIRE_END_GROUP:
+                if inner_num_wire >> 3 != number:
+                    raise ValueError("Mismatched end-group tag.")
+                raw += r
+                break
+            raw = _load_field(stream, inner_num_wire, raw + r).raw
+    else:
+        raise ValueError(f"Invalid wire type {wire_type}.")
+
+    return ParsedField(number=number, wire_type=wire_type, value=decoded, raw=raw)
+
+
 def load_fields(stream: "SupportsRead[bytes]") -> Generator[ParsedField, None, None]:
     while True:
         try:
             num_wire, raw = load_varint(stream)
+        except _TruncatedVarint:
+            raise
         except EOFError:
             return
-        number = num_wire >> 3
-        wire_type = num_wire & 0x7
-
-        decoded: Any = None
-        if wire_type == WIRE_VARINT:
-            decoded, r = load_varint(stream)
-            raw += r
-        elif wire_type == WIRE_FIXED_64:
-            decoded = stream.read(8)
-            raw += decoded
-        elif wire_type == WIRE_LEN_DELIM:
-            length, r = load_varint(stream)
-            decoded = stream.read(length)
-            raw += r
-            raw += decoded
-        elif wire_type == WIRE_FIXED_32:
-            decoded = stream.read(4)
-            raw += decoded
-
-        yield ParsedField(number=number, wire_type=wire_type, value=decoded, raw=raw)
+        yield _load_field(stream, num_wire, raw)
 
 
 def parse_fields(value: bytes) -> Generator[ParsedField, None, None]:
